@@ -4,6 +4,8 @@
 (* and O).  A trace is                                                      *)
 (*   [cfg |-> Seq(group config), events |-> Seq(event)]                     *)
 (*   event = [ev |-> "Step", present, outc, obs]  |  [ev |-> "SetHyper", g, key, v] *)
+(*         | [ev |-> "Save"] | [ev |-> "Load"]   (checkpoint of the durable  *)
+(*           fields / load into the live optimizer, as in ShampooOpt)       *)
 (* where obs (optional per group: [has |-> FALSE] when not recorded) is     *)
 (* what the harness OBSERVED on the real optimizer.  The specification is   *)
 (* deterministic given the inputs, so the trace spec is total: it computes  *)
@@ -50,20 +52,29 @@ RunGroupsT(cfg, gi, sts, ev, idx, obs, acc) ==
                 mism |-> acc2.mism \cup UNION {Mism(idx, gj, cfg[gj], NotReachedT, ev.obs[gj]) : gj \in (gi + 1)..Len(cfg)}]
           ELSE RunGroupsT(cfg, gi + 1, sts2, ev, idx, obs2, acc2)
 
-RECURSIVE RunEvents(_, _, _, _, _)
-RunEvents(cfg, sts, events, idx, acc) ==
+DurableT(cfg, sts) == [gi \in 1..Len(cfg) |-> Durable(sts[gi])]
+LoadIntoT(s, c) == [f \in DOMAIN s |-> IF f \in DurableFields THEN c[f] ELSE s[f]]
+RECURSIVE RunEvents(_, _, _, _, _, _)
+RunEvents(cfg, sts, ck, events, idx, acc) ==
   IF idx > Len(events) THEN acc
   ELSE LET ev == events[idx] IN
        IF ev.ev = "SetHyper"
-       THEN RunEvents(cfg, [sts EXCEPT ![ev.g].hy[ev.key] = ev.v], events, idx + 1,
+       THEN RunEvents(cfg, [sts EXCEPT ![ev.g].hy[ev.key] = ev.v], ck, events, idx + 1,
                       [acc EXCEPT !.exp = Append(@, [ev |-> "SetHyper"])])
+       ELSE IF ev.ev = "Save"
+       THEN RunEvents(cfg, sts, DurableT(cfg, sts), events, idx + 1, [acc EXCEPT !.exp = Append(@, [ev |-> "Save"])])
+       ELSE IF ev.ev = "Load"
+       THEN IF ck = <<>>
+            THEN [acc EXCEPT !.mism = @ \cup {<<idx, 0, "load", "a checkpoint exists", "none">>}]
+            ELSE RunEvents(cfg, [gi \in 1..Len(cfg) |-> LoadIntoT(sts[gi], ck[gi])], ck, events, idx + 1,
+                           [acc EXCEPT !.exp = Append(@, [ev |-> "Load"])])
        ELSE LET r == RunGroupsT(cfg, 1, sts, ev, idx, [gi \in 1..Len(cfg) |-> NotReachedT], [bad |-> {}, mism |-> {}])
-            IN RunEvents(cfg, r.st, events, idx + 1,
+            IN RunEvents(cfg, r.st, ck, events, idx + 1,
                          [exp |-> Append(acc.exp, [ev |-> "Step", obs |-> r.obs]),
                           bad |-> acc.bad \cup r.bad, mism |-> acc.mism \cup r.mism])
 
 Validate(tr) ==
-  LET r == RunEvents(tr.cfg, [gi \in 1..Len(tr.cfg) |-> InitG(tr.cfg[gi])], tr.events, 1,
+  LET r == RunEvents(tr.cfg, [gi \in 1..Len(tr.cfg) |-> InitG(tr.cfg[gi])], <<>>, tr.events, 1,
                      [exp |-> <<>>, bad |-> {}, mism |-> {}])
   IN [exp |-> r.exp, bad |-> r.bad, mism |-> r.mism, accepted |-> r.bad = {} /\ r.mism = {}]
 
